@@ -192,6 +192,23 @@ def spell_int(rnd, i):
     return sign + rnd.choice(["0b", "0B"]) + bin(a)[2:]
 
 
+def spell_float(rnd, x):
+    """decimal spellings of a binary64 value that denote exactly it: plain, exponent forms with and without a fraction,
+    explicit '+' on the exponent, upper-case E"""
+    plain = G.r_float(x)
+    if rnd is None or x != x or x in (float("inf"), float("-inf")):
+        return plain
+    forms = [plain]
+    if x == int(x) and abs(x) < 1e15 and x != 0:
+        i = int(x)
+        z = len(str(abs(i))) - len(str(abs(i)).rstrip("0"))
+        if z:
+            m = str(i)[:-z]
+            forms += ["%se%d" % (m, z), "%se+%d" % (m, z), "%sE+%d" % (m, z), "%s.0e+%d" % (m, z)]
+        forms += ["%de0" % i, "%de+0" % i, "%d.0e-0" % i]
+    return rnd.choice(forms) if rnd.random() < 0.5 else plain
+
+
 def spell_text(rnd, s):
     out = '"'
     for ch in s:
@@ -257,7 +274,7 @@ class Renderer:
         if k == "int":
             return spell_int(self.lit_rnd, C.int_val(v))
         if k == "float":
-            return G.r_float(C.float_val(v))
+            return spell_float(self.lit_rnd, C.float_val(v))
         if k == "text":
             return spell_text(self.lit_rnd, C.text_val(v))
         if k == "bytes":
